@@ -20,16 +20,21 @@ FINDING on the unchanged tree (model faithful: C09_sys_params_refuted; signature
   system param set by WorkflowAction.schedule, so the child records another root / namespace / index
   (a value that is not an existing execution id makes start_task die with DBReferenceError and leaves the task IDLE).
 
-Self-test (mutations of the anchored source in a scratch worktree, each must give a VIOLATION other than the finding):
-  M1 engine/actions.py  `if k not in wf_spec.get_input():` moves the key but the `wf_params[k] = v` line is dropped
-                        (undeclared input silently dropped)
-  M2 engine/actions.py  `root_execution_id = parent_wf_ex.root_execution_id or parent_wf_ex.id` -> `= parent_wf_ex.id`
-  M3 engine/actions.py  'namespace': parent_wf_ex.params['namespace'] -> 'namespace': wf_def.namespace
-  M4 engine/utils.py    the workbook-relative lookup is tried AFTER the global one (order swapped)
-  M5 engine/utils.py    `.rstrip(parent_wf_spec_name)[:-1]` -> `[:-len(parent_wf_spec_name)]` (keeps the dot)
-  M6 engine/workflows.py _send_result_to_parent_workflow: CANCELLED branch builds Result(error=..) without cancel=True
-  M7 db/v2/sqlalchemy/api.py load_workflow_definition: `order_by = model.namespace.desc()` -> `.asc()`
-  M8 engine/actions.py  'index': index -> 'index': 0
+  Minimal patch tried in a scratch worktree (refuse such a key with InputException in WorkflowAction.schedule):
+  the oracle is silent, the calling task ends ERROR with a declared message, test_subworkflows.py passes.
+
+Self-test (mutations of the anchored source in a scratch worktree; `VERIF_REPO=/tmp/wt_C09b ./check C09`; each gave a
+VIOLATION line with the signature shown, in addition to the finding above):
+  M1 engine/actions.py   the `wf_params[k] = v` line of the split loop dropped          subwf:undeclared-input-dropped
+  M2 engine/actions.py   `root_execution_id = parent.root_execution_id or parent.id` -> `= parent.id`
+                                                                                        subwf:system-param-wrong (depth 2)
+  M3 engine/actions.py   'namespace': parent_wf_ex.params['namespace'] -> wf_def.namespace   subwf:system-param-wrong
+  M4 engine/utils.py     global lookup wins over the workbook-relative one              resolve:wrong-definition
+  M5 engine/utils.py     `.rstrip(spec)[:-1]` -> `[:-len(spec)]` (keeps the dot)         resolve:wrong-definition
+  M6 engine/workflows.py CANCELLED hand-off built without cancel=True                   subwf:wrong-result-class
+  M7 db api.py           load_workflow_definition orders namespaces ascending           resolve:wrong-definition
+  M8 engine/actions.py   'index': index -> 'index': 0                                   subwf:system-param-wrong (with-items)
+  M9 engine/utils.py     `if parent_wf_name != parent_wf_spec_name` -> `if '.' in parent_wf_name`   resolve:wrong-definition
 """
 import json
 import random
